@@ -17,7 +17,9 @@ RULE = ("terminal model with mailbox sizes {24,32,48,64,128,256} and an "
         "object lengths 0 .. 3 mailbox payloads + 8 with every length around "
         "each segmentation boundary and 1-4 for expedited; with subindex and "
         "with complete access; response latency 0..k polls; unrelated mail "
-        "(emergency, non-CoE) queued before the response. The real "
+        "(emergency, one to three EoE/FoE/SoE/VoE messages) queued before "
+        "the response; plus histories of 2-3 tasks transferring different "
+        "objects of one terminal concurrently. The real "
         "Terminal.sdo_write / sdo_read run over the real send loop; the "
         "server's object store, every mailbox message (lengths vs mailbox "
         "size, toggle bits) and the returned bytes are compared. a case = "
@@ -87,8 +89,10 @@ def transfer(kind, sz, value, sub, latency, junk, res, desc):
                         extra.append(struct.pack("<HHBB", len(pl), 0, 0, 3
                                                  | (7 << 4)) + pl)
                     else:
-                        pl = bytes(6)
-                        extra.append(struct.pack("<HHBB", len(pl), 0, 0, 2
+                        # EoE (2), FoE (4), SoE (5), VoE (15) mail
+                        typ = {"eoe": 2, "foe": 4, "soe": 5, "voe": 15}[j]
+                        pl = bytes([0xee] * 6)
+                        extra.append(struct.pack("<HHBB", len(pl), 0, 0, typ
                                                  | (6 << 4)) + pl)
                 return extra + out
             return out
@@ -150,6 +154,86 @@ def transfer(kind, sz, value, sub, latency, junk, res, desc):
         res.sample(dict(desc, server_log=srv.log[:6]))
 
 
+def concurrent(sz, rng, res):
+    """2-3 tasks transfer different objects of one terminal at the same
+    time (expedited downloads, expedited / normal uploads), with response
+    latencies of several polls: every transfer must still carry its own
+    bytes"""
+    t = bus.SimTerminal("T", station=21)
+    struct.pack_into("<HHBBBB", t.mem, 0x800, 0x1000, sz, 0x26, 0, 1, 0)
+    struct.pack_into("<HHBBBB", t.mem, 0x808, 0x1400, sz, 0x22, 0, 1, 0)
+    ntask = rng.choice([2, 2, 3])
+    jobs = []
+    objs = {}
+    for k in range(ntask):
+        kind = rng.choice(["write", "read", "read"])
+        index, sub = 0x8000 + 0x10 * k, rng.randint(1, 9)
+        ln = rng.randint(1, 4) if kind == "write" else rng.choice(
+            [rng.randint(1, 4), rng.randint(5, sz - 16)])
+        value = bytes(rng.getrandbits(8) for _ in range(ln))
+        if kind == "read":
+            objs[index, sub] = value
+        jobs.append(dict(kind=kind, index=index, sub=sub, value=value,
+                         start=rng.randint(0, 3)))
+    srv = bus.SdoServer(objs, mbx_in_size=sz, mbx_out_size=sz)
+    t.mbx_handler = srv.handle
+    lats = [rng.choice([0, 1, 3, 4, 6]) for _ in range(12)]
+    lat = iter(lats)
+    t.mbx_resp_latency = lambda: next(lat, 0)
+    b = bus.Bus([t])
+    desc = dict(mode="concurrent", mailbox=sz, latency=lats,
+                jobs=[dict(j, value=j["value"].hex()) for j in jobs])
+
+    async def main(loop):
+        ec = EtherCat("vf")
+        bus.attach(ec, loop, b)
+        term = Terminal(ec)
+        term.position = 21
+        term.mbx_lock = ec.get_mbx_lock(21)
+        term.mbx_out_off, term.mbx_out_sz = 0x1000, sz
+        term.mbx_in_off, term.mbx_in_sz = 0x1400, sz
+
+        async def job(j):
+            for _ in range(j["start"]):
+                await asyncio.sleep(0)
+            try:
+                if j["kind"] == "write":
+                    return ("ok", await term.sdo_write(
+                        j["value"], j["index"], j["sub"]))
+                return ("ok", await term.sdo_read(j["index"], j["sub"]))
+            except Exception as ex:
+                return ("raised", f"{type(ex).__name__}: {str(ex)[:100]}")
+        try:
+            return await asyncio.wait_for(
+                asyncio.gather(*[job(j) for j in jobs]), 4000)
+        except asyncio.TimeoutError:
+            return None
+    outs = aio.run(main)
+    res.case(desc)
+    res.count("concurrent_histories")
+    res.count("concurrent_transfers", ntask)
+    problems = []
+    if outs is None:
+        problems.append("transfers timed out")
+        outs = []
+    for j, o in zip(jobs, outs):
+        if o[0] != "ok":
+            problems.append(f"{j['kind']} {j['index']:#x}:{j['sub']} {o[1]}")
+        elif j["kind"] == "read" and o[1] != j["value"]:
+            problems.append(f"read {j['index']:#x}:{j['sub']} returned "
+                            f"{o[1]!r:.40}, server holds {j['value']!r:.40}")
+        elif j["kind"] == "write" and \
+                srv.objects.get((j["index"], j["sub"])) != j["value"]:
+            problems.append(f"write {j['index']:#x}:{j['sub']}: server "
+                            f"holds {srv.objects.get((j['index'], j['sub']))}")
+    if srv.errors:
+        problems.append(f"server saw protocol errors: {srv.errors[:2]}")
+    if problems:
+        res.violation("unexplained:concurrent-transfers",
+                      f"mailbox {sz}: " + "; ".join(problems[:3]), case=desc,
+                      witness=dict(server_log=srv.log[:12]))
+
+
 def classify(kind, mode, sub, junk):
     """mechanism behind a failing transfer (from reading sdo_read/sdo_write);
     anything else is unexplained"""
@@ -183,12 +267,15 @@ def run_shard(params):
                 value = bytes(rng.getrandbits(8) for _ in range(ln))
                 latency = [rng.choice([0, 0, 1, 3]) for _ in range(8)]
                 junk = rng.choice([[], [], ["emergency"], ["eoe"],
-                                   ["emergency", "eoe"]])
+                                   ["emergency", "eoe"], ["eoe", "voe"],
+                                   ["foe", "eoe", "soe"]])
                 desc = dict(kind=kind, mailbox=sz, length=ln, sub=sub,
                             latency=latency, junk=junk,
                             value=value.hex()[:64])
                 res.case(desc, nontrivial=ln >= 1)
                 transfer(kind, sz, value, sub, latency, junk, res, desc)
+    for _ in range(40 if params["tier"] == "quick" else 400):
+        concurrent(sz, rng, res)
     return res
 
 
@@ -200,6 +287,8 @@ def finalize(res, tier, seed):
     missing = [n for n in need if not c.get(n)]
     if missing:
         res.inconc(f"transfer kinds never exercised: {missing}")
+    if not c.get("concurrent_histories"):
+        res.inconc("no concurrent transfer history ran")
 
 
 def replay(v):
